@@ -193,6 +193,7 @@ package dns
 
 //@ func UnpackRR [C01 C02]
 //@   requires 0 <= off
+//@   ensures some: err == nil ==> rr != nil
 //@   ensures ok:   err == nil ==> off <= off1 && off1 <= len(msg)
 
 //@ func unpackRRslice [C01 C02]
